@@ -42,8 +42,8 @@ CHECKS = {
                      "compared bit for bit (one step for padded average pools, bilinear resize, mean, table activations, uint8 rescaling "
                      "concatenation, softmax, squared difference, MUL+MAX leaky ReLU) with a transcription of the TFLite reference kernels "
                      "evaluated on the SOURCE model; output models with CPU operators are run operator by operator over one simulated "
-                     "arena (CPU-only kernels uninterpreted, the same stand-in on both sides). Not executed: 16-bit table operators, "
-                     "ARG_MAX, LSTM.",
+                     "arena (CPU-only kernels uninterpreted, the same stand-in on both sides); ARG_MAX bit for bit. Not executed: 16-bit "
+                     "table activations, LSTM.",
                 note=TB + "; the datapath semantics in hw/NpuExec.v (readings listed in DESIGN.md 10.1b) and tools/refnet.py (reference kernels) "
                      "are transcriptions, trusted; sampled networks and inputs"),
     "C02": dict(cat="translation_validation", ref="7/C02", technique="Coq-proved validator (check_bounds_sound) run on decoded command streams of real compilations",
